@@ -12,6 +12,7 @@ import PdfVerif.Lemmas.XrefBytes
 import PdfVerif.Lemmas.XrefTable
 import PdfVerif.Lemmas.XrefScan
 import PdfVerif.Lemmas.XrefFind
+import PdfVerif.Lemmas.XrefHist
 
 namespace PdfVerif.Props.C02
 
@@ -329,6 +330,54 @@ theorem C02_stream_represents (whole : History) (objs : List (Nat × Nat × Nat 
   simp only [Section.getPos]
   rw [C02_xrefstm_entry ranges w1 w2 w3 rows hf hlen n, hrow]
   exact this
+
+/-! ## `Rep` derived for every file the (structural) writer lays out -/
+
+/-- For EVERY file body — any number of (sub-)revisions, objects of the parts of a hybrid revision
+interleaved, direct objects of any positive length separated by any gaps, object-stream members —
+if each loaded section answers like the entry list the writer put into it (`SecLists`: what
+`C02_table_lookup` / `C02_stream_load` give from the bytes) then the sections represent the history
+the file means.  The only side conditions left are `WFile.ok`: lengths positive, members as their
+containers hold them. -/
+theorem C02_written_rep (f : WFile) (secsOld : List Section) (hs : SecsList secsOld f.ents)
+    (hok : f.ok = true) : Rep f.history f.store secsOld.reverse f.history := by
+  have hall : ∀ o ∈ f.objs, wobjOK f.history o = true := by
+    have := hok
+    simp only [WFile.ok, List.all_eq_true] at this
+    exact this
+  have hl : LensPos f.objs := by
+    intro o ho gap len gen hp
+    have := hall o ho
+    simp only [wobjOK, hp, decide_eq_true_eq] at this
+    exact this
+  have hmem : ∀ o ∈ f.objs, ∀ c idx, o.place = .member c idx → memberOK f.history c idx o.val = true := by
+    intro o ho c idx hp
+    have := hall o ho
+    simp only [wobjOK, hp] at this
+    exact this
+  exact subRevs_rep f.history f.store f.objs f.start f.trailers 0 secsOld hs
+    (placeObjs_keys f.objs f.start hl).2.2 hmem
+
+/-- Newest definition wins END TO END on the writer's output: no per-file hypothesis about offsets
+or sections is left. -/
+theorem C02_written_newest_wins (f : WFile) (secsOld : List Section) (hs : SecsList secsOld f.ents)
+    (hok : f.ok = true) (n : Nat) : getobj f.store secsOld.reverse n = specGetobj f.history n :=
+  C02_newest_wins (C02_written_rep f secsOld hs hok) n
+
+/-- Non-vacuity: two revisions; the older one is hybrid-like (objects of sub-revisions 0 and 1
+interleaved), object 3 lives in object stream 5, revision 2 overrides object 2. -/
+def exFile : WFile :=
+  ⟨9, [⟨1, .plain 10, .direct 0 20 0, 0⟩, ⟨5, .objstm 50 1 [.num 3, .num 0, .val 30], .direct 2 40 0, 1⟩,
+       ⟨2, .plain 20, .direct 0 15 0, 0⟩, ⟨3, .plain 30, .member 5 0, 1⟩,
+       ⟨2, .plain 22, .direct 120 18 1, 2⟩],
+   [(1, none), (1, none), (1, some 2)]⟩
+
+example : exFile.ok = true ∧ exFile.store.map (·.1) = [9, 31, 71, 206] ∧
+    exFile.ents = [[(1, ⟨none, 9, 0⟩), (2, ⟨none, 71, 0⟩)], [(5, ⟨none, 31, 0⟩), (3, ⟨some 5, 0, 0⟩)],
+      [(2, ⟨none, 206, 1⟩)]] := by decide
+
+example : getobj exFile.store ((exFile.ents.map (fun e => Section.table (e.map (fun p => ((p.1 : Int), p.2))))).reverse) 3 =
+    .ok (.plain 30) := by decide
 
 /-! ## Termination of the line loops, and the body scan -/
 
